@@ -34,12 +34,19 @@ extern unsigned char *g_t0;      /* g_tbls at entry   (snapshot by assignment in
 extern unsigned char **g_c0;     /* coding at entry   (snapshot) */
 extern void *g_data;             /* data at entry     (snapshot) */
 extern unsigned char *g_dst;     /* coding[g_l] at entry (snapshot) */
+extern size_t g_toff;            /* g_l*k*STRIDE: byte offset of the table block of row g_l */
+extern size_t g_tsize;           /* size of the table object */
 extern int g_hits;               /* number of kernel calls that produced row g_l */
 extern unsigned char *g_hit_tbl; /* table pointer used for row g_l */
-extern unsigned char *g_hit_dst; /* destination block used for row g_l */
 extern int g_base_calls;         /* calls of the portable fallback */
 
-#define EGK_ROW0 ((long) (__CPROVER_POINTER_OFFSET(coding) / sizeof(unsigned char *)))
+/* r*k for r,k in 0..255 (requires clauses): the value-preserving casts keep the multiplier 8x8 bit for the
+ * SAT back end (a 64x64 multiplier with operands bounded only by assumptions does not close) */
+#define EG_PROD(r, k) ((size_t) ((unsigned) (unsigned char) (r) * (unsigned) (unsigned char) (k)))
+
+/* slot index of `coding` inside the caller's pointer array (shift, not '/': a divider circuit is a multiplier) */
+_Static_assert(sizeof(unsigned char *) == 8, "LP64 model");
+#define EGK_ROW0 ((long) (__CPROVER_POINTER_OFFSET(coding) >> 3))
 #define EGK_REL (g_l - EGK_ROW0)
 #define EGK_COV(N) (g_l < g_rows && EGK_ROW0 <= g_l && g_l < EGK_ROW0 + (N))
 #define EGK_COV1 (g_l < g_rows && dest == g_dst)
@@ -47,35 +54,40 @@ extern int g_base_calls;         /* calls of the portable fallback */
 #define EGK_ARGS_DOT (len == g_len && k == g_k && (void *) data == g_data)
 #define EGK_ARGS_MAD (len == g_len && k == g_k && (void *) data == g_data && vec_i == g_vec_i)
 
-/* N-row kernel, N >= 2 */
+/* N-row kernel, N >= 2.  (The destination block of row g_l is C[g_l-b] == coding0[g_l]: determined by the
+ * slot position, so only the table pointer needs recording.  The stub never dereferences `coding`: after
+ * the loop-contract havoc its value set is unknown and a dereference fans out over every object.) */
 #define EGK_N(N, STRIDE, THR, ARGS)                                                                \
         __CPROVER_requires(ARGS)                                                                   \
         __CPROVER_requires(len >= (THR))                                                           \
         __CPROVER_requires(__CPROVER_same_object(coding, g_c0) &&                                  \
-                           __CPROVER_POINTER_OFFSET(coding) % sizeof(unsigned char *) == 0)        \
-        __CPROVER_requires(__CPROVER_r_ok(coding, (N) * sizeof(unsigned char *)))                  \
-        __CPROVER_requires(__CPROVER_r_ok(g_tbls, (size_t) (N) * (size_t) k * (STRIDE)))           \
-        __CPROVER_assigns(g_hits, g_hit_tbl, g_hit_dst)                                            \
+                           (__CPROVER_POINTER_OFFSET(coding) & 7) == 0)                 \
+        __CPROVER_requires(EGK_ROW0 + (N) <= g_rows)                                               \
+        __CPROVER_requires(__CPROVER_r_ok(g_tbls, (N) * EG_PROD(1, k) * (STRIDE)))           \
+        __CPROVER_assigns(g_hits, g_hit_tbl)                                                       \
         __CPROVER_ensures(g_hits == __CPROVER_old(g_hits) + (EGK_COV(N) ? 1 : 0))                  \
-        __CPROVER_ensures(EGK_COV(N) ==> (g_hit_tbl == g_tbls + (size_t) EGK_REL * (size_t) k * (STRIDE) && \
-                                          g_hit_dst == coding[EGK_REL]))                           \
-        __CPROVER_ensures(!EGK_COV(N) ==> (g_hit_tbl == __CPROVER_old(g_hit_tbl) &&                \
-                                           g_hit_dst == __CPROVER_old(g_hit_dst)))
+        __CPROVER_ensures(EGK_COV(N) ==> g_hit_tbl == g_tbls + EG_PROD(EGK_REL, k) * (STRIDE)) \
+        __CPROVER_ensures(!EGK_COV(N) ==> g_hit_tbl == __CPROVER_old(g_hit_tbl))
 
+#ifdef EG_NOQ
+#define EGK_1_INSIDE
+#else
+#define EGK_1_INSIDE                                                                               \
+        __CPROVER_requires(__CPROVER_exists {                                                      \
+                int r_;                                                                            \
+                (0 <= r_ && r_ < EG_MAXROWS) && (r_ < g_rows && dest == g_c0[r_])                  \
+        })
+#endif
 /* 1-row kernel: receives the destination block, the row is identified by the pointer value */
 #define EGK_1(STRIDE, THR, ARGS)                                                                   \
         __CPROVER_requires(ARGS)                                                                   \
         __CPROVER_requires(len >= (THR))                                                           \
-        __CPROVER_requires(__CPROVER_exists {                                                      \
-                int r_;                                                                            \
-                (0 <= r_ && r_ < EG_MAXROWS) && (r_ < g_rows && dest == g_c0[r_])                  \
-        })                                                                                         \
-        __CPROVER_requires(__CPROVER_r_ok(g_tbls, (size_t) k * (STRIDE)))                          \
-        __CPROVER_assigns(g_hits, g_hit_tbl, g_hit_dst)                                            \
+        EGK_1_INSIDE                                                                               \
+        __CPROVER_requires(__CPROVER_r_ok(g_tbls, EG_PROD(1, k) * (STRIDE)))                          \
+        __CPROVER_assigns(g_hits, g_hit_tbl)                                                       \
         __CPROVER_ensures(g_hits == __CPROVER_old(g_hits) + (EGK_COV1 ? 1 : 0))                    \
-        __CPROVER_ensures(EGK_COV1 ==> (g_hit_tbl == g_tbls && g_hit_dst == dest))                 \
-        __CPROVER_ensures(!EGK_COV1 ==> (g_hit_tbl == __CPROVER_old(g_hit_tbl) &&                  \
-                                         g_hit_dst == __CPROVER_old(g_hit_dst)))
+        __CPROVER_ensures(EGK_COV1 ==> g_hit_tbl == g_tbls)                                        \
+        __CPROVER_ensures(!EGK_COV1 ==> g_hit_tbl == __CPROVER_old(g_hit_tbl))
 
 #define EGK_DOT_1(RET, ISA, STRIDE, THR)                                                           \
         RET gf_vect_dot_prod_##ISA(int len, int k, unsigned char *g_tbls, unsigned char **data,    \
